@@ -63,4 +63,51 @@ def identityMapRegion (startFrame size flags : W) (failAt : Option Nat) : Region
   let (calls, ok) := mapLoop startFrame startFrame flags failAt n 0
   { ok := ok, page := if ok then startFrame else 0, cursor := 0, calls := calls }
 
+/-! ## `kernel/goruntime/bootstrap.go`: the Go runtime's memory hooks as clients of the reservation -/
+
+/-- page loop with one fixed frame (`sysMap` maps every page to the shared zero frame) -/
+def mapLoopConst (page frame flags : W) (failAt : Option Nat) : (count : Nat) → (idx : Nat) → List (W × W × W) × Bool
+  | 0, _ => ([], true)
+  | n+1, idx =>
+    if failAt = some idx then ([(page, frame, flags)], false)
+    else
+      let (rest, ok) := mapLoopConst (page + 1) frame flags failAt n (idx+1)
+      ((page, frame, flags) :: rest, ok)
+
+def cowFlags : W := BitVec.ofNat 64 (flagPresent + flagNoExecute + flagCopyOnWrite)
+def rwFlags : W := BitVec.ofNat 64 (flagPresent + flagNoExecute + flagRW)
+
+/-- `sysReserve`: `none` = the function panics (no space, or the size cannot be page-rounded) -/
+def gortReserve (cursor size : W) : Option W :=
+  if roundWraps size then none else earlyReserve cursor (roundUp size)
+
+/-- `sysMap`: returns the region start (0 on failure) and the `mapFn` calls made -/
+def gortMap (va size zeroFrame : W) (failAt : Option Nat) : W × List (W × W × W) :=
+  if roundWraps size then (0, []) else
+  let start := roundUp va
+  let (calls, ok) := mapLoopConst (pageOf start) zeroFrame cowFlags failAt (roundUp size >>> pageShift).toNat 0
+  (if ok then start else 0, calls)
+
+/-- `sysAlloc` with a frame allocator handing out `firstFrame, firstFrame+1, …` that fails at call
+`allocFailAt`: returns (pointer or 0, new cursor, memset calls, map calls) -/
+def gortAllocLoop (page frame : W) (allocFailAt mapFailAt : Option Nat) :
+    (count : Nat) → (idx : Nat) → List (W × W × W) × Nat × Bool
+  | 0, _ => ([], 0, true)
+  | n+1, idx =>
+    if allocFailAt = some idx then ([], 0, false)
+    else if mapFailAt = some idx then ([(page, frame, rwFlags)], 0, false)
+    else
+      let (rest, ms, ok) := gortAllocLoop (page + 1) (frame + 1) allocFailAt mapFailAt n (idx+1)
+      ((page, frame, rwFlags) :: rest, ms + 1, ok)
+
+def gortAlloc (cursor size firstFrame : W) (allocFailAt mapFailAt : Option Nat) :
+    W × W × Nat × List (W × W × W) :=
+  if roundWraps size then (0, cursor, 0, []) else
+  match earlyReserve cursor (roundUp size) with
+  | none => (0, cursor, 0, [])
+  | some start =>
+    let (calls, ms, ok) := gortAllocLoop (pageOf start) firstFrame allocFailAt mapFailAt
+      (roundUp size >>> pageShift).toNat 0
+    (if ok then start else 0, start, ms, calls)
+
 end Firefly.AddrSpace
